@@ -239,11 +239,13 @@ def readAt (f : WavFile) (pos n : Int) : Except AErr (List UInt8) :=
 def duration (f : WavFile) : QTime := ⟨f.nframes, f.rate⟩
 end WavFile
 
-/-- `readFramesAtTime(audiofile, startTime, endTime)`:
-`setpos(round(frameRate * startTime)); readframes(round(frameRate * (endTime - startTime)))` -/
+/-- `readFramesAtTime(audiofile, startTime, endTime)` (as repaired, commit fedc16f):
+`startFrame = round(frameRate * startTime); endFrame = round(frameRate * endTime);
+setpos(startFrame); readframes(max(endFrame - startFrame, 0))` -/
 def readFramesAtTime (f : WavFile) (s e : QTime) : Except AErr (List UInt8) :=
-  f.readAt (roundHalfEven ((f.rate : Int) * s.num) s.den)
-           (roundHalfEven ((f.rate : Int) * (e - s).num) (e - s).den)
+  let a := roundHalfEven ((f.rate : Int) * s.num) s.den
+  let b := roundHalfEven ((f.rate : Int) * e.num) e.den
+  f.readAt a (max (b - a) 0)
 
 /-- `Wav.save`: `wave.open(fn, "w")`, `setparams` (width must be 1..4, rate positive),
 `writeframes(self.frames)` -/
